@@ -265,6 +265,10 @@ class MonitoredList(collections.abc.MutableSequence):
         if self._callback is not None:
             self._callback(self)
 
+    def reverse(self):
+        # Swapping items one by one would create duplicates, which are dropped
+        self[:] = self._items[::-1]
+
     def __len__(self):
         return len(self._items)
 
